@@ -117,6 +117,12 @@ class DiGraphEx(nx.DiGraph):
         if target_nodes is not None:
             graph = graph.minimal_induced_subgraph(target_nodes).copy()
 
+        # networkx builds copies and subgraphs with `self.__class__()`, which drops the per node tables
+        graph.tag = self.tag
+        graph.debug = self.debug
+        graph.setup = self.setup
+        graph.compound_priority = self.compound_priority
+
         return graph
 
     @property
